@@ -89,7 +89,7 @@ Definition anyb (b : list stmt) : bool := existsb (fun x => is_blocking x PNone)
 
 (* ---------------------------------------------------------------------------------------------- *)
 (* fixes.remove_dead_ifs (fixes.py:1874-1918; If/While part), after the repairs
-     - `while <falsy literal>: ... else: E`  is replaced by E (was: deleted together with E),
+     - `while <falsy literal>: ... else: E`  is left alone (was: deleted together with E),
      - an `elif <literal>` with a live branch is left alone (was: the live branch was dedented out
        of the if-chain and ran even when an earlier branch had run).
    [rdi n p] = block p after the rule has reached its fixpoint; [rdi_else] = an else block.
@@ -112,9 +112,9 @@ Fixpoint rdi (n : nat) (p : list stmt) : list stmt :=
         | SLoop h b e =>
             match h with
             | HWhile t =>
-                match tval t with
-                | Some false => rdi n' e
-                | _ => [SLoop h (fixb (rdi n' b)) (fixe e (rdi n' e))]
+                match tval t, e with
+                | Some false, [] => []          (* a loop that never runs and has no else: deleted *)
+                | _, _ => [SLoop h (fixb (rdi n' b)) (fixe e (rdi n' e))]   (* with an else: left alone (7d823f2) *)
                 end
             | _ => [SLoop h (fixb (rdi n' b)) (fixe e (rdi n' e))]
             end
@@ -230,7 +230,7 @@ Fixpoint fir_safe (n : nat) (p : list stmt) : bool :=
   end.
 
 (* ---------------------------------------------------------------------------------------------- *)
-(* fixes.fix_if_assign (fixes.py:3920-3950, after repair 066a7f0: elif nodes are skipped):
+(* fixes.fix_if_assign (fixes.py:3920-3950, after repair 4e708bf: elif nodes are skipped):
      if c: v = True else: v = False   ->  v = c        (and the mirrored form -> v = not c) *)
 Definition asg_const (b : list stmt) : option (var * bool) :=
   match b with [SAssign x (RVal (VBool v))] => Some (x, v) | _ => None end.
@@ -406,7 +406,7 @@ Definition swap_if_else_model (p : list stmt) : list stmt :=
   end.
 
 (* ---------------------------------------------------------------------------------------------- *)
-(* fixes.delete_unreachable_code (fixes.py:876-922, after repairs d6620b5, c9f0b78).
+(* fixes.delete_unreachable_code (fixes.py:876-922, after repairs d6620b5, 7d823f2).
    - in the body of every node that is not an If/While (the function, for loops): everything after the first
      blocking statement is deleted ([duc_scan]); bodies of If/While and all else blocks are not scanned;
    - `if <literal>`: the dead branch is emptied (an `elif` clause in a dead else is removed), an `if` with a
